@@ -47,6 +47,7 @@ class TypeGen:
         self.allow_none_scalar = allow_none_scalar
         self.lit_conflate = False
         self.allow_self = True
+        self.allow_inherit = True
         self.dc_config_fn = dc_config_fn
         self.mixins = mixins
         self.vgen = Gen(fam, rng)
@@ -346,6 +347,27 @@ class TypeGen:
         n = nfields if nfields is not None else r.randint(1, 4)
         fields = []
         defaults_started = False
+        if mixin is None:
+            mixin = r.choice(self.mixins) if r.random() < self.mixin_prob else None
+        bases = []
+        if self.allow_inherit and nfields is None and r.random() < 0.15:
+            # a base class with required fields; the child may override the default of the last one
+            bname = self.fresh("B")
+            bfields = [{"n": f"b{i}", "t": self.type(depth)} for i in range(r.randint(1, 2))]
+            self.fam.add({"k": "dc", "name": bname, "bases": [], "mixin": mixin, "fields": bfields}, self.value_maker)
+            bases = [bname]
+            mixin = None            # inherited from the base
+            if r.random() < 0.4:
+                last = dict(bfields[-1])
+                last["dmode"] = r.choice(["default", "factory"])
+                last["dseed"] = r.getrandbits(32)
+                fields.append(last)
+                defaults_started = True
+        if self.allow_inherit and r.random() < 0.08:
+            # a member that is not a constructor parameter: serialized, never read from the input
+            fields_tail = [{"n": "ni", "t": r.choice([("int",), ("str",), ("date",)]), "dmode": "default", "dseed": r.getrandbits(32), "init": False}]
+        else:
+            fields_tail = []
         for i in range(n):
             t = self.type(depth)
             f = {"n": f"a{i}", "t": t}
@@ -355,15 +377,14 @@ class TypeGen:
                 f["dmode"] = r.choice(["default", "factory"])
                 f["dseed"] = r.getrandbits(32)
             fields.append(f)
-        if mixin is None:
-            mixin = r.choice(self.mixins) if r.random() < self.mixin_prob else None
+        fields += fields_tail
         if self.allow_self and r.random() < 0.12:
             # recursive field typed Self (always defaulted so instances terminate)
             if r.random() < 0.5:
                 fields.append({"n": "nxt", "t": ("opt", ("self",), "Optional"), "dmode": "default", "dseed": 0, "const_default": None})
             else:
                 fields.append({"n": "kids", "t": ("seq", r.choice(["List", "list"]), ("self",)), "dmode": "factory", "dseed": 0, "const_default": []})
-        d = {"k": "dc", "name": name, "bases": [], "mixin": mixin, "fields": fields}
+        d = {"k": "dc", "name": name, "bases": bases, "mixin": mixin, "fields": fields}
         cfg = config if config is not None else (self.dc_config_fn(r) if self.dc_config_fn else None)
         if cfg:
             cfg = dict(cfg)
